@@ -72,3 +72,6 @@ mod strings;
 mod temporal;
 mod types;
 pub mod values;
+
+#[cfg(dmntk_verif)]
+pub mod verif;
